@@ -328,14 +328,14 @@ theorem verifyIn_noabort (H : HashParams) (fp : FieldParams) (ef : EF F) (d : De
 /-- `verify` on a DECODED proof whose context fits the statement never panics -/
 theorem verifyParsed_noabort (H : HashParams) (fs : FieldSet) (d : Desc) (pub : PubInputs)
     (acc : Security.Acceptable) (p : ProofM) (s : AbortSite)
-    (hacc : ∀ bits, acc ≠ .minProven bits) (hd : Decoded p)
+    (hacc : ∀ bits, acc ≠ .minProven bits) (hfield : fieldOk fs.fp = true) (hd : Decoded p)
     (hfits : contextFits fs.fp d pub p.context = true) :
     verifyParsed H fs d pub acc p ≠ .error (.abort s) := by
   obtain ⟨lg, hlg3, hlg64, hlen⟩ := hd.len
   obtain ⟨q0, q255, hbp, hb2, hb128, hfp, hf2, hf16, _, _⟩ := validB_facts _ hd.opts
   unfold contextFits at hfits
-  simp only [Bool.and_eq_true, decide_eq_true_eq] at hfits
-  obtain ⟨⟨⟨⟨hseed, hair⟩, hper⟩, hfit⟩, hq⟩ := hfits
+  simp only [Bool.and_eq_true] at hfits
+  obtain ⟨⟨hair, hper⟩, hfit⟩ := hfits
   have h8 : 8 ≤ p.context.info.length := by
     rw [hlen]
     calc 8 = 2 ^ 3 := rfl
@@ -348,42 +348,47 @@ theorem verifyParsed_noabort (H : HashParams) (fs : FieldSet) (d : Desc) (pub : 
     subst h
     exact validateOptions_noabort H acc p.context s hacc (by omega) he'
   · split at h
-    · rename_i hnone
-      rw [hnone] at hseed
-      cases hseed
-    · split at h
+    · cases h
+    · rename_i hmod
+      obtain ⟨els, hels⟩ := contextElements_isSome fs.fp p.context hfield (by simpa using hmod)
+      rw [hels] at h
+      simp only [] at h
+      split at h
       · cases h
       · split at h
         · cases h
-        · rename_i hadic _
+        · rename_i hadic hq
           split at h
-          · rename_i hnone
-            rw [hnone] at hair
-            cases hair
-          · rename_i ctx hctx
-            obtain ⟨hex, hcc⟩ := airNew_facts d p.context.info p.context.options ctx hctx h8 hb128
-            have hadic' : (p.context.info.length * p.context.options.blowup).log2 ≤ fs.fp.twoAdicity := by omega
-            split at h
-            · exact verifyIn_noabort H fs.fp fs.e1 d pub p ctx _ s hd hcc hadic' hex hper hfit hq h
-            · split at h
+          · cases h
+          · split at h
+            · rename_i hnone
+              rw [hnone] at hair
+              cases hair
+            · rename_i ctx hctx
+              obtain ⟨hex, hcc⟩ := airNew_facts d p.context.info p.context.options ctx hctx h8 hb128
+              have hadic' : (p.context.info.length * p.context.options.blowup).log2 ≤ fs.fp.twoAdicity := by omega
+              have hq' : p.context.options.queries < p.context.info.length * p.context.options.blowup := by omega
+              split at h
+              · exact verifyIn_noabort H fs.fp fs.e1 d pub p ctx _ s hd hcc hadic' hex hper hfit hq' h
               · split at h
-                · cases h
-                · exact verifyIn_noabort H fs.fp _ d pub p ctx _ s hd hcc hadic' hex hper hfit hq h
-              · split at h
-                · cases h
-                · exact verifyIn_noabort H fs.fp _ d pub p ctx _ s hd hcc hadic' hex hper hfit hq h
+                · split at h
+                  · cases h
+                  · exact verifyIn_noabort H fs.fp _ d pub p ctx _ s hd hcc hadic' hex hper hfit hq' h
+                · split at h
+                  · cases h
+                  · exact verifyIn_noabort H fs.fp _ d pub p ctx _ s hd hcc hadic' hex hper hfit hq' h
 
 /-- the whole verifier on ARBITRARY bytes -/
 theorem verifyModel_noabort (H : HashParams) (fs : FieldSet) (d : Desc) (pub : PubInputs)
     (acc : Security.Acceptable) (bytes : Bytes) (s : AbortSite)
-    (hacc : ∀ bits, acc ≠ .minProven bits)
+    (hacc : ∀ bits, acc ≠ .minProven bits) (hfield : fieldOk fs.fp = true)
     (hfits : ∀ p r, proofDec bytes = .ok p r → contextFits fs.fp d pub p.context = true) :
     verifyModel H fs d pub acc bytes ≠ .error (.abort s) := by
   intro h
   unfold verifyModel at h
   split at h
   · rename_i p r hp
-    exact verifyParsed_noabort H fs d pub acc p s hacc (proofDec_decoded bytes p r hp) (hfits p r hp) h
+    exact verifyParsed_noabort H fs d pub acc p s hacc hfield (proofDec_decoded bytes p r hp) (hfits p r hp) h
   · cases h
   · rename_i ha
     exact proof_noAbort bytes ha
